@@ -462,3 +462,22 @@ def guarded(fn: Callable[[], int]) -> int:
         traceback.print_exc()
         print("ANALYSIS-ERROR checker crashed (traceback above)")
         return 2
+
+
+def borrow(ctx: "Ctx", fn, rename: Dict[str, str]) -> int:
+    """Run a sibling property's rule function and keep only the obligations whose rule id is a key of `rename`,
+    re-labelled; foreign floors are dropped (the sibling's own check still enforces them)."""
+    before = len(ctx.obligations)
+    floors = dict(ctx.floors)
+    fn(ctx)
+    keep, n = [], 0
+    for i, o in enumerate(ctx.obligations):
+        if i < before:
+            keep.append(o)
+        elif o.rule in rename:
+            o.rule = rename[o.rule]
+            keep.append(o)
+            n += 1
+    ctx.obligations[:] = keep
+    ctx.floors = floors
+    return n
